@@ -309,12 +309,19 @@ def report(prop, tier, seed, results, wall, pm):
             if prop in fr["info"].tags and fr["status"] == "undecided":
                 und_fns.append((res["unit"], fr))
     if und_fns and os.environ.get("HV_NO_NATIVE") != "1":
-        for unit, fr in und_fns[:6]:
-            nat = _native.search(prop, unit, fr["info"], fr["failed"], seed)
-            if nat and nat.get("failing_input") is not None:
+        sels = sorted(set("fn:" + fr["info"].name for _, fr in und_fns))
+        nres = _native.run_search(sels, seed, 300, timeout=3000)
+        failing = {k: v[1] for k, v in nres.items() if isinstance(v, tuple) and v[0] == "FAIL"}
+        if failing:
+            cover = _native.covers()
+            for unit, fr in und_fns:
+                hit = [c for c in failing if fr["info"].name in cover.get(c, [])]
+                if not hit:
+                    continue
                 f0 = fr["failed"] or [{"obligation": "%s::%s::safety" % (unit, fr["info"].name), "clause": "", "verus_message": "undecided", "at": "", "rendered": ""}]
                 for f in f0:
                     f["kind"] = "refuted"
+                fr["native_hit"] = {"ran": True, "contracts": {c: "FAIL" for c in hit}, "contract": hit[0], "failing_input": failing[hit[0]]}
                 violations.append((unit, fr["info"], f0))
                 undecided[:] = [u for u in undecided if not u.startswith("%s::%s::" % (unit, fr["info"].name))]
     os.makedirs(os.path.join(VERIF, "replay_out"), exist_ok=True)
@@ -328,7 +335,11 @@ def report(prop, tier, seed, results, wall, pm):
         if not unlisted:
             continue
         nviol += 1
-        rp = replaylib.write_replay(prop, unit, i, unlisted, seed)
+        pre = None
+        for _u, _fr in und_fns:
+            if _fr["info"] is i and _fr.get("native_hit"):
+                pre = _fr["native_hit"]
+        rp = replaylib.write_replay(prop, unit, i, unlisted, seed, pre)
         suffix = "" if rp["failing_input_found"] else " no-failing-input-found"
         out_lines.append("VIOLATION property=%s replay=%s obligation=%s%s" % (prop, rp["path"], unlisted[0]["obligation"], suffix))
         exit_code = 1
